@@ -126,6 +126,15 @@ def record(sc):
             if os.path.basename(rel) in (b".gitignore", b".fdignore"):
                 continue
             pts.append((e.kind, b2s(rel), e.ord, e.ret))
+        # directory entries as the listing delivers them (for file systems that do not fill d_type: the entry
+        # then needs an lstat of its own, one more call that can fail)
+        sc["_listed"] = []
+        for e in res.trace.events:
+            if e.kind == "readdir" and e.ret == 0 and (e.extra or "").startswith("name="):
+                rel = ops.relw(rd, e.path)
+                nm = core.unpct(e.extra[5:])
+                if rel is not None and nm not in (None, b".", b".."):
+                    sc["_listed"].append((b2s(rel), e.ord, b2s(nm)))
         return pts
 
 
@@ -142,6 +151,13 @@ def gen_cases(tier, seed):
             for a in acts:
                 yield {"sc": sc, "faults": [{"kind": kind, "path": path, "ord": ord_, "act": a}]}
             yield {"sc": sc, "faults": [{"kind": kind, "path": path, "ord": ord_, "act": "vanish"}]}
+        # an entry delivered with d_type = DT_UNKNOWN whose follow-up lstat fails: it alone is lost, with a warning
+        for (d_, ord_, nm_) in sc.pop("_listed", []):
+            if nm_ in (".gitignore", ".fdignore"):
+                continue
+            for a in ["errno:" + e for e in ERRNOS]:
+                yield {"sc": sc, "faults": [{"kind": "readdir", "path": d_, "ord": ord_, "act": "dtunknown", "aux": True},
+                                            {"kind": "lstat", "path": d_ + "/" + nm_, "ord": 0, "act": a}]}
         # pairs on two different entries
         first = [p for p in pts if p[2] == 0 and p[0] in ("stat", "open", "read", "opendir")]
         pairs = [(a, b) for i, a in enumerate(first) for b in first[i + 1:] if a[1] != b[1]]
@@ -183,15 +199,17 @@ def run_case(case):
         sel = model.scan(roots, follow=follow)
         keys = model.content_keys(sel)
         # what the faulted entries make unreachable (their subtree; with -L everything reached only through them)
+        # auxiliary steps (e.g. "deliver this entry with DT_UNKNOWN") make a call position exist; they fault nothing
+        eff = [f for f in case["faults"] if not f.get("aux")]
         blocked = set()
-        for f in case["faults"]:
+        for f in eff:
             ent = ops.absw(rd, f["path"])
             blocked.add(ent)
             blocked.add(os.path.realpath(ent))
         affected = set(sel) - set(model.scan(roots, follow=follow, blocked=blocked))
         affected |= {p for p in sel if p in blocked}
         # an entry that really vanishes takes its whole subtree with it, whichever input path leads there
-        for f in case["faults"]:
+        for f in eff:
             if f["act"] == "vanish":
                 ent = ops.absw(rd, f["path"])
                 affected |= {p for p in sel if _under(ent, p) or _under(os.path.realpath(ent), p)}
@@ -219,7 +237,7 @@ def run_case(case):
 
         res = _group(rd, sc, plan, on_hit if vanish else None)
         fired = res.trace.fired()
-        entries = [ops.absw(rd, f["path"]) for f in case["faults"]]
+        entries = [ops.absw(rd, f["path"]) for f in eff]
         # entries as the scan names them: through -L a file can be reached by its resolved path
         real_entries = []
         for ent in entries:
@@ -304,8 +322,8 @@ def run_case(case):
                             if len(ids) > 1:
                                 V("partial-read-not-grouped", "%r could not be read completely in its last stage but is reported as a duplicate of another file" % b2s(fe.path))
             # warning unless the entry simply disappeared
-            errs = [f for f in case["faults"] if f["act"].startswith("errno:") and f["act"] != "errno:ENOENT"]
-            if L and outcome_changed and errs and len(case["faults"]) == 1:
+            errs = [f for f in eff if f["act"].startswith("errno:") and f["act"] != "errno:ENOENT"]
+            if L and outcome_changed and errs and len(eff) == 1:
                 names = [os.path.basename(e) for e in real_entries]
                 w = res.warnings()
                 if not any(any(nm.decode("utf-8", "replace") in l for nm in names) for l in w):
